@@ -14,7 +14,7 @@ M = [
  ("C01-3","C01","src/duration/ops.rs","Self::from_parts(-1 - self.centuries, nanoseconds)","Self::from_parts(-self.centuries - 1, nanoseconds)","Neg: regression of the overflow fix in the most negative century"),
  ("C02-1","C02","src/timeunits.rs","Unit::Week => NANOSECONDS_PER_DAY as i64 * DAYS_PER_WEEK_I64,","Unit::Week => NANOSECONDS_PER_DAY as i64 * (DAYS_PER_WEEK_I64 - 1),","integer weeks are 6 days long (the float factor table is untouched)"),
  ("C02-2","C02","src/duration/mod.rs","} else if centuries_i128 < i16::MIN.into() {","} else if centuries_i128 <= i16::MIN.into() {","from_total_nanoseconds saturates one century early on the negative side"),
- ("C02-3","C02","src/duration/mod.rs","if self.centuries == i16::MIN || self.centuries.abs() >= 3 {","if self.centuries == i16::MIN || self.centuries.abs() > 3 {","try_truncated_nanoseconds guard off by one: centuries == -3 overflows the i64 multiplication"),
+ ("C02-3","C02","src/duration/mod.rs","if self.centuries < -3 || self.centuries >= 3 {","if self.centuries < -2 || self.centuries >= 3 {","regression of D36: century -3 (most of which fits on an i64) refused again by the 64-bit accessors"),
  ("C04-1","C04","src/epoch/ops.rs","        self.duration - other.to_time_scale(self.time_scale).duration\n    }\n}\n\nimpl SubAssign<Duration>","        self.to_time_scale(other.time_scale).duration - other.duration\n    }\n}\n\nimpl SubAssign<Duration>","Epoch - Epoch measured in the right operand's scale (differs across leap seconds and for ET/TDB)"),
  ("C08-1","C08","src/epoch/gregorian.rs","            | 1996\n            | 1999","            | 1996\n            | 1998\n            | 1999","january_years gains 1998: 1997-12-31T23:59:60 becomes valid"),
  ("C08-2","C08","src/epoch/gregorian.rs","        || minute > 59","        || minute > 60","minute 60 accepted"),
